@@ -79,7 +79,8 @@ def canon(ps):
 def check_sig(spec, ret, future, stats, enum=True, shp=None):
     from sigtools import support, signatures
     text = text_of(spec)
-    ff = ('annotations',) if future else ()
+    # future_features takes any number of feature names: the one that matters here alone, first or last among others
+    ff = [('annotations',), ('annotations', 'division'), ('generator_stop', 'annotations'), ('division', 'annotations', 'generator_stop')][len(text) % 4] if future else ()
     case = {'spec': list(map(list, spec)), 'ret': ret, 'future': future}
     desc = '%r%s%s' % (text, '' if ret is None else ' -> %s' % ret, ' [postponed]' if future else '')
     exp = expect_params(spec)
@@ -230,6 +231,52 @@ def check_sig(spec, ret, future, stats, enum=True, shp=None):
                 break
 
 
+class _Anything(object):
+    """Compares equal to everything (like unittest.mock.ANY): a default is a default whatever its == says."""
+    def __eq__(self, other):
+        return True
+
+    def __ne__(self, other):
+        return False
+
+    __hash__ = object.__hash__
+
+    def __repr__(self):
+        return 'ANY'
+
+
+def check_permissive_defaults(stats):
+    from sigtools import support, signatures
+    ANY = _Anything()
+    for text in ('a, b=D', 'a, /, b=D, *, c=D', '*args, c=D, **kwargs', 'b=D'):
+        stats.case()
+        stats.cls('permissive-equality defaults')
+        case = {'kind': 'permissive-default', 'text': text}
+        try:
+            fn = support.f(text, globals={'D': ANY})
+            sig = signatures.signature(fn)
+            args = (1,) if text.startswith('a') else ()
+            real = fn(*args)
+            bound = support.bind_callsig(sig, args, {})
+            valid, invalid = support.sort_callsigs(sig, [(args, {})])
+        except Exception as e:
+            stats.fail('C20/permissive-default/raised-%s' % type(e).__name__, case,
+                       'f(%r, globals={"D": ANY}): calling it without the defaulted parameters, bind_callsig or sort_callsigs raised %s: %s' % (text, type(e).__name__, e))
+            continue
+        same = set(real) == set(bound) and all(real[k] is bound[k] or real[k] == bound[k] for k in real)
+        if not same or len(valid) != 1 or invalid:
+            stats.fail('C20/permissive-default', case, 'f(%r) called with %r returns %r; bind_callsig gives %r, sort_callsigs %d valid / %d invalid' % (
+                text, args, real, bound, len(valid), len(invalid)))
+        else:
+            stats.nontriv(('permissive-default', text))
+
+
+def shard_permissive(arg):
+    st = Stats()
+    check_permissive_defaults(st)
+    return st
+
+
 def shard(arg):
     specs, = arg
     st = Stats()
@@ -280,6 +327,7 @@ def shard_hyp(arg):
 
 def run(ctx):
     total = Stats()
+    total.merge(ctx.pmap(shard_permissive, [0]))
     U3 = universe.enum_specs(('a', 'b', 'c'), 3, ('args',), ('kwargs',))
     specs = ctx.stride(U3, ctx.pick(0.08, 1.0))
     total.merge(ctx.pmap(shard, [(specs[i::128],) for i in range(128) if specs[i::128]]))
@@ -291,5 +339,8 @@ def run(ctx):
 
 
 def replay(case, stats):
+    if case.get('kind') == 'permissive-default':
+        check_permissive_defaults(stats)
+        return
     spec = tuple(Par(*p) for p in case['spec'])
     check_hyp((spec, case['ret'], case['future']), stats)
